@@ -1,4 +1,89 @@
-import EpsModel.Header
+/-
+  C11 — A truncated file (crash while storing) is never deserialized into a value.
+-/
+import EpsModel.Lemmas.Prefix3
+import EpsModel.Lemmas.TopLevel
 namespace Eps.C11
-theorem placeholder : (1 : Nat) = 1 := rfl
+open Eps
+
+/-- A strict prefix of the header makes `check_header` fail with a read error. -/
+theorem checkHeader_prefix (th ah : Nat) (name p : B) (hth : th < 2^64) (hah : ah < 2^64)
+    (hl : name.length < 2^63) (h : SPre p (wHeader th ah name)) :
+    checkHeader th ah p 0 = .err .readError := by
+  simp only [wHeader, List.append_assoc] at h
+  simp only [checkHeader]
+  rcases spre_append h with h1 | ⟨q1, rfl, g1⟩
+  · rw [readWord_short 8 p 0 (by simpa [magicBytes_length] using h1.length_lt)]; rfl
+  rw [readWord_magic]; simp only [Res.bind_ok, bne_self_eq_false, Bool.false_eq_true, if_false]
+  rcases spre_append g1 with h1 | ⟨q2, rfl, g2⟩
+  · rw [readWord_short 2 q1 _ (by simpa using h1.length_lt)]; rfl
+  rw [readWord_leBytes 2 versionMajor _ _ (by decide)]
+  simp only [Res.bind_ok, bne_self_eq_false, Bool.false_eq_true, if_false]
+  rcases spre_append g2 with h1 | ⟨q3, rfl, g3⟩
+  · rw [readWord_short 2 q2 _ (by simpa using h1.length_lt)]; rfl
+  rw [readWord_leBytes 2 versionMinor _ _ (by decide)]
+  simp only [Res.bind_ok, gt_iff_lt, Nat.lt_irrefl, if_false]
+  rcases spre_append g3 with h1 | ⟨q4, rfl, g4⟩
+  · rw [readWord_short 1 q3 _ (by simpa using h1.length_lt)]; rfl
+  rw [readWord_leBytes 1 usizeSize _ _ (by decide)]
+  simp only [Res.bind_ok, bne_self_eq_false, Bool.false_eq_true, if_false]
+  rcases spre_append g4 with h1 | ⟨q5, rfl, g5⟩
+  · rw [readWord_short 8 q4 _ (by simpa using h1.length_lt)]; rfl
+  rw [readWord_leBytes 8 th _ _ (by omega)]
+  simp only [Res.bind_ok]
+  rcases spre_append g5 with h1 | ⟨q6, rfl, g6⟩
+  · rw [readWord_short 8 q5 _ (by simpa using h1.length_lt)]; rfl
+  rw [readWord_leBytes 8 ah _ _ (by omega)]
+  simp only [Res.bind_ok, decFullStr]
+  rcases spre_append g6 with h1 | ⟨q7, rfl, g7⟩
+  · rw [readWord_short 8 q6 _ (by simpa using h1.length_lt)]; rfl
+  rw [readWord_leBytes 8 name.length _ _ (by omega)]
+  simp only [Res.bind_ok]
+  have hnot : ¬ (name.length > isizeMax) := by unfold isizeMax; omega
+  rw [if_neg hnot, readExact_short _ q7 _ g7.length_lt]; rfl
+
+/-- **Full copy**: every strict prefix of a serialized stream — every cut point, every type, value,
+    name, digest function — is refused with a read error. -/
+theorem prefix_full (H : B → Nat) (hH : ∀ b, H b < 2^64) (T : Ty) (name : B) (v : Val) (p : B)
+    (hT : T.wf = true) (hv : T.wt v = true) (hname : validUtf8 name = true) (hlen : name.length < 2^63)
+    (h : SPre p (T.ser H name v)) : T.deFull H p = .err .readError := by
+  have h1 : T.typeHash H < 2^64 := hH _
+  have h2 : T.alignHash H < 2^64 := hH _
+  unfold Ty.ser Ty.header at h
+  simp only [] at h
+  unfold Ty.deFull
+  rcases spre_append h with hh | ⟨q, rfl, hq⟩
+  · rw [checkHeader_prefix _ _ name p h1 h2 hlen hh]; rfl
+  · rw [checkHeader_wHeader _ _ name q h1 h2 hname hlen]
+    simp only [Res.bind_ok]
+    rw [(Ty.trunc 0 T hT v hv).1 _ q hq]; rfl
+
+/-- **ε-copy**: every strict prefix, at every base address, fails: an error or a bounds-check
+    panic, never a value. -/
+theorem prefix_eps (H : B → Nat) (hH : ∀ b, H b < 2^64) (T : Ty) (name : B) (v : Val) (p : B) (base : Nat)
+    (hT : T.wf = true) (hv : T.wt v = true) (hname : validUtf8 name = true) (hlen : name.length < 2^63)
+    (h : SPre p (T.ser H name v)) : ∀ x, T.deEps H base p ≠ .ok x := by
+  have h1 : T.typeHash H < 2^64 := hH _
+  have h2 : T.alignHash H < 2^64 := hH _
+  unfold Ty.ser Ty.header at h
+  simp only [] at h
+  unfold Ty.deEps
+  rcases spre_append h with hh | ⟨q, rfl, hq⟩
+  · rw [checkHeader_prefix _ _ name p h1 h2 hlen hh]; exact NotOk.err _
+  · rw [checkHeader_wHeader _ _ name q h1 h2 hname hlen]
+    simp only [Res.bind_ok]
+    exact NotOk.bind _ ((Ty.trunc base T hT v hv).2.2 _ q hq)
+
+/-- The model readers only ever look at the bytes they are given (`p`): by construction nothing
+    outside the prefix is read. Body-level versions, at any stream position: -/
+theorem prefix_body_full (T : Ty) (v : Val) (hT : T.wf = true) (hv : T.wt v = true) (pos : Nat) (p : B)
+    (h : SPre p (T.enc v pos)) : T.decFull .reader p pos = .err .readError :=
+  (Ty.trunc 0 T hT v hv).1 pos p h
+theorem prefix_body_eps (base : Nat) (T : Ty) (v : Val) (hT : T.wf = true) (hv : T.wt v = true) (pos : Nat) (p : B)
+    (h : SPre p (T.enc v pos)) : ∀ x, T.decEps base p pos ≠ .ok x :=
+  (Ty.trunc base T hT v hv).2.2 pos p h
+
+/-- Non-vacuity: a 3-byte cut of a 4-byte integer is a strict prefix. -/
+example : SPre [1, 0, 0] ((Ty.prim (.int .u32)).enc (.bits 1) 0) := ⟨[0], by simp, by simp [Ty.enc, leBytes, Prim.size, IntK.size]⟩
+
 end Eps.C11
